@@ -27,7 +27,8 @@ class IndexedSet(Contract):
         self.cls, self.attr, self.vkind = cls, attr, vkind
         self.variant = "%s.%s" % (cls, attr)
         self.params = {"self": _descriptor_param(cls, attr), "instance": "ref:" + cls, "value": vkind}
-        self.modifies = {"_" + attr: lambda c0, a, r: r == a.instance.t, "_interval_events": None}
+        self.key = "_size" if attr == "_indexed_size" else "_" + attr      # logical heap field (schema alias)
+        self.modifies = {self.key: lambda c0, a, r: r == a.instance.t, "_interval_events": None}
         super().__init__()
 
     def region_invariant(self, c):
@@ -46,7 +47,7 @@ class IndexedSet(Contract):
                 "inv_region": forest.inv_region(c)}
 
     def post(self, c0, c1, a, res):
-        return {"stored": c1.get("_" + self.attr, a.instance.t) == to_val(a.value),
+        return {"stored": c1.get(self.key, a.instance.t) == to_val(a.value),
                 "wf_static": forest.wf_static(c1), "wf_parents": forest.wf_parents(c1),
                 "inv_region": forest.inv_region(c1)}
 
@@ -54,7 +55,8 @@ class IndexedSet(Contract):
 def register(reg):
     reg.allow_inline("byteinterval.py::ByteInterval._index_add", "byteinterval.py::ByteInterval._index_discard",
                      "section.py::Section._index_add", "section.py::Section._index_discard")
+    bi_size = "size" if reg.prog.classes["ByteInterval"].lookup_descriptor("size") else "_indexed_size"
     for (cls, attr, vk) in (("ByteBlock", "size", "int"), ("ByteBlock", "offset", "int"),
-                            ("ByteInterval", "size", "int"), ("ByteInterval", "address", "optint")):
+                            ("ByteInterval", bi_size, "int"), ("ByteInterval", "address", "optint")):
         c = reg.add(IndexedSet(cls, attr, vk))
         reg.descriptor_contracts[(cls, attr)] = c
